@@ -1489,7 +1489,7 @@ phases by frame number mod 32, beam (writer, byte kind, before/after/margin, dt/
             ("tape", 0x4000), ("tape", 0xC000), ("scr", 0x4000),
         ];
         let reps = o.n(1, 12);
-        let rounds = o.n(3, 5) as usize;
+        let rounds = o.n(5, 8) as usize;
         for _ in 0..reps {
             for st in &states {
                 for (w, win) in writers {
@@ -1537,10 +1537,12 @@ phases by frame number mod 32, beam (writer, byte kind, before/after/margin, dt/
                             (((off - 0x1800) / 32) * 8 + g.rng.below(8) as usize, (off - 0x1800) % 32)
                         };
                         let fetch = fp + y * lm + 4 * col;
-                        let d: i64 = match (round + g.rng.below(2) as usize) % 4 {
+                        let d: i64 = match (round + g.rng.below(2) as usize) % 5 {
                             0 => -(g.rng.range(40, 600) as i64),
                             1 => g.rng.range(16, 600) as i64,
                             2 => g.rng.range(0, 40) as i64 - 20,
+                            // below the last canvas line: bottom border and retrace, the picture of this frame is complete
+                            3 => (fp + 192 * lm) as i64 + g.rng.range(2, 11000) as i64 - fetch as i64,
                             _ => g.rng.range(0, 60000) as i64 - fetch as i64,
                         };
                         ops.push(Op::WaitTo((fetch as i64 + d).clamp(0, 69000) as usize));
